@@ -10,6 +10,7 @@ import (
 	"fmt"
 	"go/constant"
 	"go/token"
+	"strings"
 
 	"golang.org/x/tools/go/ssa"
 )
@@ -188,5 +189,78 @@ func sortFns(fns []*ssa.Function) {
 		for j := i; j > 0 && fnKey(fns[j]) < fnKey(fns[j-1]); j-- {
 			fns[j], fns[j-1] = fns[j-1], fns[j]
 		}
+	}
+}
+
+// RunLoadRecursion — R-LOADREC (C08, C18): loading terminates. The loader functions of the root package call each other in a
+// fixed order (walk, parse, link layout, link components); none of them is recursive, so the work is bounded by the number
+// of files and of uses in them. A cycle among them (a component file loading the components it names by calling the
+// loader again) is unbounded for files that name each other: NewTemplate never returns.
+func (m *Model) RunLoadRecursion(s *Sink, rule string) {
+	var fns []*ssa.Function
+	in := map[*ssa.Function]bool{}
+	for fn := range m.Reach(m.Roots().Load) {
+		if fn.Blocks != nil && m.InModule(fn) && shortPkg(fnPkgPath(fn)) == "textwire" {
+			fns = append(fns, fn)
+			in[fn] = true
+		}
+	}
+	sortFns(fns)
+	// callees within the set (closures belong to their parents' work: a call of a function literal is followed too)
+	edges := map[*ssa.Function][]*ssa.Function{}
+	for _, fn := range fns {
+		if node := m.CG.Nodes[fn]; node != nil {
+			for _, e := range node.Out {
+				if in[e.Callee.Func] {
+					edges[fn] = append(edges[fn], e.Callee.Func)
+				}
+			}
+		}
+	}
+	state := map[*ssa.Function]int{}
+	var stack []*ssa.Function
+	cycle := ""
+	var dfs func(f *ssa.Function)
+	dfs = func(f *ssa.Function) {
+		if cycle != "" {
+			return
+		}
+		state[f] = 1
+		stack = append(stack, f)
+		for _, g := range edges[f] {
+			if state[g] == 1 {
+				var names []string
+				on := false
+				for _, x := range stack {
+					if x == g {
+						on = true
+					}
+					if on {
+						names = append(names, fnKey(x))
+					}
+				}
+				cycle = strings.Join(append(names, fnKey(g)), " -> ")
+				return
+			}
+			if state[g] == 0 {
+				dfs(g)
+			}
+		}
+		stack = stack[:len(stack)-1]
+		state[f] = 2
+	}
+	for _, f := range fns {
+		if state[f] == 0 {
+			dfs(f)
+		}
+	}
+	key := "textwire|the loader functions do not call each other in a cycle"
+	switch {
+	case len(fns) < 4:
+		s.Undecided(rule, key, "-", "expected the loader functions of the root package on the path from NewTemplate, found %d", len(fns))
+	case cycle != "":
+		s.Violation(rule, key, "-", "the loader is recursive (%s): for template files that name each other (a component that uses itself, two components using each other) loading never ends", cycle)
+	default:
+		s.OK(rule, key, "-", "the call graph among the %d loader functions reachable from NewTemplate is acyclic", len(fns))
 	}
 }
